@@ -9,24 +9,34 @@ SCOPES = {
     'exception_view': (11, 0), 'exception_view_reraise': (11, 0), 'subrequest': (12, 0), 'request_context_manual': (13, 0), 'wsgi_call': (14, 0),
     'cfg_init': (15, 0),
 }
+# RE-ENTRANT use (site 'current'): the scope is opened while the very frame it is about to push -- the same request
+# object and registry -- is already the current one (the harness pushes it on top of its sentinels), e.g.
+# scripting.prepare(request=<the request being served>), invoke_subrequest(<the current request>), a nested
+# RequestContext for the same request, a Configurator scope for the registry that is already current.
+# 'view_<n>': the same nesting done for real from inside a running view, which then looks at the current
+# request once more.
+REENTRANT = ['redispatch', 'prepare', 'prepare_with', 'get_root', 'request_context', 'request_context_with',
+             'exception_view', 'config_begin', 'config_with']
 # where the single failure is injected, per scope (0 = nowhere)
 SITES = {
-    'get_root': ['none', 'root_factory', 'root_factory_base'],
-    'prepare': ['none', 'root_factory', 'root_factory_base', 'extensions'],
+    'get_root': ['none', 'root_factory', 'root_factory_base', 'current'],
+    'prepare': ['none', 'root_factory', 'root_factory_base', 'extensions', 'current'],
     'get_root_closer': ['none'],
     'prepare_closer': ['none', 'finished_callback'],
-    'prepare_with': ['none', 'body', 'finished_callback', 'root_factory'],
-    'cfg_commit': ['none', 'action', 'conflict'],
-    'cfg_action': ['none', 'callable', 'introspectable'],
-    'cfg_include': ['none', 'callable'],
-    'cfg_make_wsgi_app': ['none', 'subscriber', 'action', 'tween_factory', 'conflict'],
-    'cfg_route_prefix': ['none', 'body'],
-    'cfg_with': ['none', 'body', 'action', 'conflict'],
-    'exception_view': ['none', 'view', 'view_base', 'mismatch', 'noview'],
-    'exception_view_reraise': ['none', 'view', 'view_base', 'mismatch', 'noview'],
-    'subrequest': ['none', 'view'],
-    'request_context_manual': ['none', 'body'],
-    'wsgi_call': ['none', 'view', 'request_factory', 'tween_reraise', 'tween_reraise_mismatch'],
+    'prepare_with': ['none', 'body', 'finished_callback', 'root_factory', 'current'],
+    'cfg_commit': ['none', 'action', 'conflict', 'current'],
+    'cfg_action': ['none', 'callable', 'introspectable', 'current'],
+    'cfg_include': ['none', 'callable', 'current', 'prefix_bytes', 'prefix_int', 'prefix_strsub', 'prefix_empty'],
+    'cfg_make_wsgi_app': ['none', 'subscriber', 'action', 'tween_factory', 'conflict', 'current'],
+    'cfg_route_prefix': ['none', 'body', 'current', 'prefix_bytes', 'prefix_int', 'prefix_strsub', 'prefix_empty',
+                         'prefix_none'],
+    'cfg_with': ['none', 'body', 'action', 'conflict', 'current'],
+    'exception_view': ['none', 'view', 'view_base', 'mismatch', 'noview', 'current'],
+    'exception_view_reraise': ['none', 'view', 'view_base', 'mismatch', 'noview', 'current'],
+    'subrequest': ['none', 'view', 'current'] + ['view_' + n for n in REENTRANT],
+    'request_context_manual': ['none', 'body', 'current'],
+    'wsgi_call': ['none', 'view', 'request_factory', 'tween_reraise', 'tween_reraise_mismatch']
+                 + ['view_' + n for n in REENTRANT],
     'cfg_init': ['none', 'root_factory_dotted'],
 }
 
@@ -128,10 +138,14 @@ def _see_registry(registry):
     _INNER.append(1 if get_current_registry() is registry else 0)
 
 
-def _observe(fn):
+def _observe(fn, top=None):
+    """top: a frame pushed above the sentinels before fn runs (re-entrant use: the frame the scope itself is about
+    to push is already current); it belongs to the caller's stack like the sentinels"""
     from pyramid.threadlocal import manager
     del _INNER[:]
     sentinel = [{'request': None, 'registry': None, 'c13': i} for i in range(2)]
+    if top is not None:
+        sentinel.append(top)
     base = len(manager.stack)
     manager.stack.extend(sentinel)
     before = list(manager.stack)
@@ -193,6 +207,10 @@ def run_scope(name, site):
     if name in ('get_root', 'get_root_closer'):
         c = _config(_rf(site))
         app = c.make_wsgi_app()
+        if name == 'get_root' and site == 'current':
+            req = Request.blank('/')
+            req.registry = app.registry
+            return _observe(lambda: scripting.get_root(app, request=req), top=_frame(req))
         if name == 'get_root':
             return _observe(lambda: scripting.get_root(app))
         root, closer = scripting.get_root(app)
@@ -218,6 +236,17 @@ def run_scope(name, site):
 
         def cb(request):
             raise Boom()
+        if site == 'current':
+            # the request handed to prepare() is already the current one
+            req = Request.blank('/')
+            req.registry = reg
+            if name == 'prepare':
+                return _observe(lambda: scripting.prepare(request=req), top=_frame(req))
+
+            def fcur():
+                with scripting.prepare(request=req) as env:
+                    _see_request(env['request'])
+            return _observe(fcur, top=_frame(req))
         if name == 'prepare':
             return _observe(lambda: scripting.prepare(registry=reg))
         if name == 'prepare_closer':
@@ -251,7 +280,7 @@ def run_scope(name, site):
         c.action(('c13', 1), act)
         if site == 'conflict':
             c.action(('c13', 1), lambda: None)
-        return _observe(c.commit)
+        return _observe(c.commit, top=_cfg_top(c, site))
     if name == 'cfg_action':
         from pyramid.config import Configurator
         c = Configurator(autocommit=True)
@@ -265,12 +294,15 @@ def run_scope(name, site):
                 _see_registry(c.registry)
                 raise Boom()
         intrs = (BadIntr(),) if site == 'introspectable' else ()
-        return _observe(lambda: c.action(('c13', 2), act, introspectables=intrs))
+        return _observe(lambda: c.action(('c13', 2), act, introspectables=intrs), top=_cfg_top(c, site))
     if name == 'cfg_include':
         c = _config()
 
         _CUR['registry'] = c.registry
-        return _observe(lambda: c.include(_includeme_raise if site == 'callable' else _includeme_ok))
+        if site.startswith('prefix_'):
+            return _observe(lambda: c.include(_includeme_ok, route_prefix=_PREFIXES[site]))
+        return _observe(lambda: c.include(_includeme_raise if site == 'callable' else _includeme_ok),
+                        top=_cfg_top(c, site))
     if name == 'cfg_make_wsgi_app':
         from pyramid.events import ApplicationCreated
         c = _config()
@@ -290,21 +322,25 @@ def run_scope(name, site):
             c.action(('c13', 3), lambda: None)
         if site == 'tween_factory':
             c.add_tween('harness.c13.scopes.bad_tween_factory')     # raises while Router builds the tween chain
-        return _observe(c.make_wsgi_app)
+        return _observe(c.make_wsgi_app, top=_cfg_top(c, site))
     if name == 'cfg_route_prefix':
         c = _config()
 
+        prefix = _PREFIXES[site] if site.startswith('prefix_') else 'p'
+
         def f():
-            with c.route_prefix_context('p'):
+            with c.route_prefix_context(prefix):
                 _see_registry(c.registry)
                 if site == 'body':
                     raise Boom()
-        return _observe(f)
+        return _observe(f, top=_cfg_top(c, site))
     if name == 'cfg_with':
         from pyramid.config import Configurator
 
+        c0 = Configurator()
+
         def f():
-            with Configurator() as c:
+            with c0 as c:
                 def act():
                     _see_registry(c.registry)
                     if site == 'action':
@@ -315,7 +351,7 @@ def run_scope(name, site):
                 _see_registry(c.registry)
                 if site == 'body':
                     raise Boom()
-        return _observe(f)
+        return _observe(f, top=_cfg_top(c0, site))
     if name in ('exception_view', 'exception_view_reraise'):
         # explicit request.invoke_exception_view(reraise=...): the view renders / raises an Exception /
         # raises a BaseException / is rejected by its predicate (PredicateMismatch) / does not exist
@@ -343,7 +379,7 @@ def run_scope(name, site):
                 raise Boom()
             except Boom:
                 req.invoke_exception_view(reraise=reraise)
-        return _observe(f)
+        return _observe(f, top=_frame(req) if site == 'current' else None)
     if name in ('subrequest', 'wsgi_call', 'request_context_manual'):
         c = _config()
 
@@ -351,8 +387,13 @@ def run_scope(name, site):
             _see_request(request)
             if site in ('view', 'tween_reraise', 'tween_reraise_mismatch'):
                 raise Boom()
+            if site.startswith('view_') and not request.environ.get('c13.nested'):
+                request.environ['c13.nested'] = 1
+                _nested(site[5:], request, app_box[0])
+                _see_request(request)       # the rest of the view: its request must be the current one again
             return Response('x')
         c.add_view(v)
+        app_box = [None]
         if site == 'request_factory':
             def rf(environ):
                 raise Boom()
@@ -370,11 +411,30 @@ def run_scope(name, site):
             else:
                 c.add_exception_view(ev2, context=Exception, c13no=True)
             c.add_tween('harness.c13.scopes.reraise_tween_factory', over=EXCVIEW)
-        app = c.make_wsgi_app()
+        app = app_box[0] = c.make_wsgi_app()
+        if name == 'subrequest' and site == 'current':
+            # "internal forward" of a request that is already the current one
+            req = Request.blank('/')
+            req.registry = app.registry
+            return _observe(lambda: app.invoke_subrequest(req), top=_frame(req))
         if name == 'subrequest':
             return _observe(lambda: app.invoke_subrequest(Request.blank('/')))
         if name == 'wsgi_call':
             return _observe(lambda: app(Request.blank('/').environ, lambda *a, **k: None))
+
+        if site == 'current':
+            from pyramid.threadlocal import RequestContext
+            req = Request.blank('/')
+            req.registry = app.registry
+
+            def fcur():
+                ctx = RequestContext(req)
+                ctx.begin()
+                try:
+                    _see_request(req)
+                finally:
+                    ctx.end()
+            return _observe(fcur, top=_frame(req))
 
         def f():
             ctx = app.request_context(Request.blank('/').environ)
@@ -390,6 +450,76 @@ def run_scope(name, site):
 
 
 _CUR = {}
+
+
+class _StrSub(str):
+    pass
+
+
+# route_prefix values: only str / None are documented; the others fail while the prefix is being composed
+_PREFIXES = {'prefix_bytes': b'api', 'prefix_int': 7, 'prefix_strsub': _StrSub('/api/'), 'prefix_empty': '',
+             'prefix_none': None}
+
+
+def _frame(request):
+    """the frame RequestContext(request).begin() pushes"""
+    return {'registry': request.registry, 'request': request}
+
+
+def _cfg_top(config, site):
+    """the frame Configurator.begin() pushes when nothing else is current"""
+    return {'registry': config.registry, 'request': None} if site == 'current' else None
+
+
+def _nested(how, request, app):
+    """from inside a running view: open (and close) a second scope for the request that is being served"""
+    from pyramid import scripting
+    from pyramid.threadlocal import RequestContext
+    if how == 'redispatch':
+        request.invoke_subrequest(request)
+    elif how == 'prepare':
+        env = scripting.prepare(request=request)
+        _see_request(request)
+        env['closer']()
+    elif how == 'prepare_with':
+        with scripting.prepare(request=request):
+            _see_request(request)
+    elif how == 'get_root':
+        root, closer = scripting.get_root(app, request=request)
+        _see_request(request)
+        closer()
+    elif how == 'request_context':
+        ctx = RequestContext(request)
+        ctx.begin()
+        try:
+            _see_request(request)
+        finally:
+            ctx.end()
+    elif how == 'request_context_with':
+        with RequestContext(request) as r:
+            _see_request(r)
+    elif how == 'exception_view':
+        try:
+            raise Boom()
+        except Boom:
+            try:
+                request.invoke_exception_view()
+            except Exception:       # HTTPNotFound: no exception view is registered
+                pass
+    elif how in ('config_begin', 'config_with'):
+        from pyramid.config import Configurator
+        c = Configurator(registry=request.registry)
+        if how == 'config_begin':
+            c.begin()               # no request given: the current one is kept (1.8)
+            try:
+                _see_request(request)
+            finally:
+                c.end()
+        else:
+            with c:
+                _see_request(request)
+    else:
+        raise KeyError(how)
 
 
 class _NoPred:
